@@ -1,4 +1,9 @@
-"""E3: stateless deviation-bounded DFS over schedules of the real nREPL threads (one process per execution).
+"""E3: stateless deviation-bounded DFS over schedules of the real nREPL threads.
+
+Executions run in warm server processes. Default mode "inproc": the server runs one execution after the other in its own
+process (at the end of an execution every thread of it unwinds and exits); a forked child per execution (mode "fork",
+GV_SCHED_MODE=fork) costs several thousand page faults each, which this machine serialises across processes. Both modes
+run the same code; `Explorer.determinism` executes its probe prefixes in both and demands identical observations.
 
 An execution is `garden-verif verif nrepl-run` fed {script, prefix, horizon}: it follows the choice prefix, then
 always takes alternative 0, and prints the trace (every scheduling point with its alternatives and the choice),
@@ -19,13 +24,14 @@ from .pool import NCPU
 class _Server:
     """One `garden-verif verif nrepl-serve` fork server: a job line in, a result line out, each job in a forked child."""
 
-    def __init__(self, binary):
+    def __init__(self, binary, mode):
         self.binary = binary
+        self.mode = mode
         self.p = None
 
     def start(self):
         self.stop()
-        self.p = subprocess.Popen([self.binary, "verif", "nrepl-serve"], stdin=subprocess.PIPE, stdout=subprocess.PIPE, stderr=subprocess.DEVNULL)
+        self.p = subprocess.Popen([self.binary, "verif", "nrepl-serve" if self.mode == "fork" else "nrepl-serve-inproc"], stdin=subprocess.PIPE, stdout=subprocess.PIPE, stderr=subprocess.DEVNULL)
 
     def stop(self):
         if self.p is not None:
@@ -64,45 +70,50 @@ class _Server:
         return buf, None
 
 
-_servers = {}
-_idle = None
+MODE = os.environ.get("GV_SCHED_MODE", "inproc")
+_idle = {}
 _lock = threading.Lock()
 
 
-def _get_server(binary):
-    global _idle
+def _get_server(binary, mode):
     with _lock:
-        if _idle is None:
-            _idle = queue.Queue()
-        try:
-            return _idle.get_nowait()
-        except queue.Empty:
-            return _Server(binary)
+        q = _idle.setdefault(mode, queue.Queue())
+    try:
+        return q.get_nowait()
+    except queue.Empty:
+        return _Server(binary, mode)
 
 
 def shutdown_servers():
-    global _idle
     with _lock:
-        if _idle is not None:
+        for q in _idle.values():
             while True:
                 try:
-                    _idle.get_nowait().stop()
+                    q.get_nowait().stop()
                 except queue.Empty:
                     break
 
 
-def run_exec(binary, script, prefix, horizon, timeout=120):
-    """One execution of the real code under the controlled scheduler, in a child forked by a warm server process."""
+def run_exec(binary, script, prefix, horizon, timeout=120, mode=None):
+    """One execution of the real code under the controlled scheduler, in a warm server process."""
+    mode = mode or MODE
     inp = json.dumps({"script": script, "prefix": prefix, "horizon": horizon})
-    srv = _get_server(binary)
-    if srv.binary != binary:
+    out = why = None
+    for attempt in range(3):
+        srv = _get_server(binary, mode)
+        if srv.binary != binary:
+            srv.stop()
+            srv = _Server(binary, mode)
+        out, why = srv.call(inp, timeout)
+        if out is not None:
+            break
         srv.stop()
-        srv = _Server(binary)
-    out, why = srv.call(inp, timeout)
+        # an in-process server retires itself (every 250th run, after a panic or a leaked thread): its pipe may close under us
+        if mode == "fork" or why != "server died":
+            break
     if out is None:
-        srv.stop()
         return {"end": why if why.startswith("PROCESS") else f"PROCESS-EXIT {why}", "trace": [], "notes": [], "responses": [], "tasks": []}
-    _idle.put(srv)
+    _idle[mode].put(srv)
     try:
         return json.loads(out.decode())
     except ValueError:
@@ -148,6 +159,7 @@ class Explorer:
         self.capped = None
         self.outcomes = set()
         self.max_len = 0
+        self.cross_checked = 0
 
     def determinism(self, prefixes):
         for pf in prefixes:
@@ -155,6 +167,11 @@ class Explorer:
             b = run_exec(self.binary, self.script, pf, self.horizon)
             if a["end"].startswith(("PROCESS", "BAD", "DIVERGED")) or canon(a) != canon(b):
                 raise Machinery(f"nondeterministic or failing replay of prefix {pf}: {a['end']} / {b['end']} {a.get('stderr', '')[:300]}")
+            if MODE != "fork":
+                # the same prefix in a forked child of its own: the execution must not depend on what ran in the process before
+                c = run_exec(self.binary, self.script, pf, self.horizon, mode="fork")
+                if canon(a) != canon(c):
+                    raise Machinery(f"execution of prefix {pf} differs between a reused process and a fresh one: {a['end']} / {c['end']}")
 
     def explore(self):
         # priority queue ordered by cost so that bound k completes before k+1 starts
@@ -184,6 +201,12 @@ class Explorer:
                     choices = [p["choice"] for p in trace]
                     if choices[:len(prefix)] != prefix:
                         raise Machinery(f"replay diverged from prefix {prefix}")
+                    if MODE != "fork" and self.execs % 97 == 0:
+                        # spot check against a forked child of its own (state carried over from earlier runs would show here)
+                        fresh = run_exec(self.binary, self.script, prefix, self.horizon, mode="fork")
+                        self.cross_checked += 1
+                        if canon(fresh) != canon(res):
+                            raise Machinery(f"execution of prefix {prefix} differs between a reused process and a fresh one: {res['end']} / {fresh['end']}")
                     self.outcomes.add(json.dumps([{k: v for k, v in m.items() if k != "eval-msec"} for m in res["responses"]], sort_keys=True))
                     self.check(res, prefix, c)
                     for i in range(len(prefix), len(trace)):
